@@ -24,7 +24,9 @@ STEPS = {"quick": 10, "thorough": 25}
 
 
 def cells(tier):
-    return [{"name": k, "kind": k, "n": N[tier], "steps": STEPS[tier]} for k in KINDS]
+    # the mesh cell has more state (cached start vertex, unreferenced vertices)
+    return [{"name": k, "kind": k, "n": N[tier] * (4 if k == "mesh" else 1), "steps": STEPS[tier]}
+            for k in KINDS]
 
 
 @st.composite
@@ -50,7 +52,7 @@ def _case(draw, kind, steps):
     else:
         q_local = st.fixed_dictionaries({"op": st.just("support"), "d": dirs})
     q = st.one_of(
-        st.fixed_dictionaries({"op": st.just("support"), "d": dirs}), q_local,
+        st.fixed_dictionaries({"op": st.just("support"), "d": dirs}), q_local, q_local,
         st.just({"op": "aabb"}), st.just({"op": "center"}), st.just({"op": "first_vertex"}),
         st.just({"op": "gjk"}), st.just({"op": "intersection"}))
     ops = draw(st.lists(st.one_of(pose, q, q), min_size=1, max_size=steps))
@@ -105,6 +107,24 @@ def check_case(case, cell):
             if isinstance(r, LibError):
                 fails.append(fail("exception/%s/%s" % (r.type, r.frame), "%s: %r" % (where, r)))
                 break
+            if kind == "mesh" and i % 2 == 0:
+                # probe right after the update: support towards vertex 0 (may be
+                # an interior vertex) must equal a fresh object's answer
+                V = np.array(spec["vertices"], dtype=float)
+                d = np.ascontiguousarray(np.array(cur["R"], dtype=float).dot(V[0] - V.mean(axis=0)))
+                if float(np.linalg.norm(d)) > 1e-9:
+                    pa = call_lib(obj.support_function, d.copy())
+                    pb = call_lib(build(cur).support_function, d.copy())
+                    nontrivial = True
+                    if isinstance(pa, LibError) and not isinstance(pb, LibError):
+                        fails.append(fail("exception-after-update/%s/%s/%s" % (pa.type, pa.frame, tag),
+                                          "%s: first support query after update_pose raised %r" % (where, pa)))
+                        break
+                    if not isinstance(pa, LibError) and not isinstance(pb, LibError):
+                        if abs(float(d.dot(pa)) - float(d.dot(pb))) / float(np.linalg.norm(d)) > tol:
+                            fails.append(fail("differs/support-after-update/" + tag,
+                                              "%s: first support query after update_pose differs from a fresh object" % where))
+                            break
             continue
         fresh = build(cur)
 
